@@ -39,6 +39,15 @@ M = {
  'coopTS_syncSA_id_of_feature0': ('src/Factored/MDP/CooperativeThompsonModel.cpp',
     'void CooperativeThompsonModel::sync(const State & s, const Action & a) {\n        const auto & S = experience_.getS();\n\n        for (size_t i = 0; i < S.size(); ++i) {\n            const auto j = experience_.getGraph().getId(i, s, a);',
     'void CooperativeThompsonModel::sync(const State & s, const Action & a) {\n        const auto & S = experience_.getS();\n\n        for (size_t i = 0; i < S.size(); ++i) {\n            const auto j = std::min(experience_.getGraph().getId(0, s, a), experience_.getGraph().getSize(i) - 1);'),
+ # shared sampling helper (include/AIToolbox/Utils/Probability.hpp): the normalising sum forgets the first gamma draw
+ 'dirichlet_sum_skips_first': ('include/AIToolbox/Utils/Probability.hpp',
+    'out[i] = dist(generator);\n            sum += out[i];', 'out[i] = dist(generator);\n            if (i || params.size() == 1) sum += out[i];'),
+ # rarely used accessor: the sparse experience hands out the reward matrix as M2 matrix
+ 'sparseExp_getM2Matrix_returns_rewards': ('src/MDP/SparseExperience.cpp',
+    'SparseExperience::getM2Matrix() const { return M2s_; }', 'SparseExperience::getM2Matrix() const { return rewards_; }'),
+ # accessor used by the Eigen branch of the learned models: the sparse experience hands out the visit table of action 0 for the last action
+ 'sparseExp_getVisitsTable_a_last_is_first': ('src/MDP/SparseExperience.cpp',
+    'SparseExperience::getVisitsTable(const size_t a) const { return visits_[a]; }', 'SparseExperience::getVisitsTable(const size_t a) const { return visits_[a + 1 == A && A > 2 ? 0 : a]; }'),
 }
 names = sys.argv[1:] or list(M)
 env = dict(os.environ, AITB_C07_LENIENT_SITES='1')
